@@ -336,7 +336,7 @@ def run(chk):
     for c in progs:
         p = c["prog"]
         nodes = [{"name": "Aaa1", "kind": akind[p["carrier"]], "renamed": False},
-                 {"name": {"upper": "Bbb2", "lower_snake": "bbb_t", "underscore": "_Bbb"}[p.get("bname", "upper")], "kind": p["bkind"], "renamed": p["renamed"]}]
+                 {"name": {"upper": "Bbb2", "lower_snake": "bbb_t", "underscore": "_Bbb", "prefix_of_a": "Aaa", "extends_a": "Aaa11", "case_of_a": "AAA1"}[p.get("bname", "upper")], "kind": p["bkind"], "renamed": p["renamed"]}]
         if p.get("twin"):
             # two more items that share a Rust identifier (Ccc3 and v2::Ccc3 renamed Ccc3Twin); nothing refers to them, so which of
             # the two a bare `Ccc3` would designate (C09's business) plays no part
